@@ -27,7 +27,7 @@ for d in sorted(glob.glob('/verif/seeded/C*/')):
         'demo': (re.search(r'demo baseline.*', conf) or [''])[0].strip(),
         'verdict': 'CONFIRMED' if 'CONFIRMED' in conf else 'not confirmed'}
     r = res.get(sid, {})
-    meta['checks_run'] = {k: {'exit': v[0], 'detected': v[0] == 1, 'run': v[1], 'how': ('tools/seedrun_wt.sh: patch applied in a scratch worktree of /repo HEAD (a long run against /repo was in progress); VERIF_REPO=<worktree> bin/vcheck %s quick (VERIF_SEED=1); worktree reverted' % k) if int((re.search(r'round(\d+)', v[1]) or [0, 0])[1]) >= 6 else ('tools/seedrun.sh: git -C /repo apply patch.diff; bin/vcheck %s quick (VERIF_SEED=1); git -C /repo checkout -- .' % k)} for k, v in r.items()}
+    meta['checks_run'] = {k: {'exit': v[0], 'detected': v[0] == 1, 'run': v[1], 'how': ('tools/seedrun_wt.sh: patch applied in a scratch worktree of /repo HEAD (a long run against /repo was in progress); VERIF_REPO=<worktree> bin/vcheck %s quick (VERIF_SEED=1); worktree reverted' % k) if (6 <= int((re.search(r'round(\d+)', v[1]) or [0, 0])[1]) <= 21) else ('tools/seedrun.sh: git -C /repo apply patch.diff; bin/vcheck %s quick (VERIF_SEED=1); git -C /repo checkout -- .' % k)} for k, v in r.items()}
     f = first.get(sid, {})
     missed_first = [k for k, v in f.items() if v[0] != 1]
     if missed_first: meta['missed_before_strengthening'] = missed_first
